@@ -1,2 +1,94 @@
-(** Property C17 — theorems (proofs in Proofs/MuxProofs.v); extended as the proof development grows *)
-From MP4 Require Import Writer MuxProofs.
+(** * Property C17 — the muxer API is total: bad arguments are errors, never panics
+
+    Statements only; the proofs are in [Proofs/MuxTotal.v].  The muxer model is
+    [Model/Writer.v]: [run_mux m base cfg ops] is [Mp4Writer::write_start] on a stream at
+    position [base], the calls [ops] ([add_track] / [write_sample], in any order, with any
+    arguments), then [write_end] up to (not including) the encoding of [moov].  Mode [Dbg] is
+    a build with overflow checks (they panic), [Rel] one that wraps.
+
+    Hypotheses of the theorems:
+    - [op_typed]: a sample duration is a [u32] (the model stores it in an unbounded [N]);
+      nothing else is assumed about configurations and samples: timescales may be 0,
+      parameter sets empty, language bytes arbitrary, samples of any length, track ids arbitrary;
+    - fewer than 2^32-1 accepted [add_track] calls ([muxer_can_panic_with_2p32_tracks] shows that
+      the 2^32-th panics in a debug build);
+    - the output stays below stream position 2^63. *)
+From MP4 Require Import Writer MuxTotal.
+Open Scope string_scope.
+Open Scope list_scope.
+Open Scope N_scope.
+
+(** No call panics, in either build. *)
+Theorem muxer_total : forall m base cfg ops,
+  Forall op_typed ops ->
+  lenN (added_confs ops) < U32MAX ->
+  base < 2 ^ 63 -> base + lenN (ftyp_bytes cfg) + 16 + sample_bytes ops < 2 ^ 63 ->
+  is_panic (run_mux m base cfg ops) = false.
+Proof. exact muxer_total_lemma. Qed.
+Print Assumptions muxer_total.
+
+(** More precisely: the run completes; [add_track] returns [Ok] exactly for the configurations
+    that pass [conf_check] (non-zero timescale, AVC parameter sets of 4..65535 / 0..65535 bytes)
+    and an error otherwise; every [write_sample] returns [Ok] or an error; [write_end] succeeds.
+    ([mux_pre] = the three hypotheses above, with the weaker bound [base + |ftyp| + 8 < 2^64].) *)
+Theorem muxer_calls_return : forall m base cfg ops,
+  mux_pre base cfg ops ->
+  exists cls f, run_mux m base cfg ops = Ok (cls, f) /\ Forall2 cls_ok ops cls.
+Proof. exact muxer_calls_return_lemma. Qed.
+Print Assumptions muxer_calls_return.
+
+(** A release build cannot panic at all, whatever the history (no hypothesis): the only panic
+    site that does not depend on overflow checks is the division by the track timescale, and
+    [add_track] rejects a zero timescale. *)
+Theorem muxer_total_release : forall base cfg ops, is_panic (run_mux Rel base cfg ops) = false.
+Proof. exact muxer_total_rel_lemma. Qed.
+Print Assumptions muxer_total_release.
+
+(** The bound on the number of tracks is needed: with 2^32-1 tracks, the next [add_track]
+    overflows [tracks.len() as u32 + 1] (src/writer.rs, [add_track]) and panics in a debug build
+    -- even when the configuration would have been rejected.  (2^32 calls; not replayable.) *)
+Theorem muxer_can_panic_with_2p32_tracks : exists base cfg ops,
+  Forall op_typed ops /\ base < 2 ^ 63 /\ base + lenN (ftyp_bytes cfg) + 16 + sample_bytes ops < 2 ^ 63 /\
+  lenN (added_confs ops) = U32 /\
+  is_panic (run_mux Dbg base cfg ops) = true.
+Proof. exact muxer_can_panic_tracks_lemma. Qed.
+Print Assumptions muxer_can_panic_with_2p32_tracks.
+
+(** ** Non-vacuity: a history with every kind of degenerate call *)
+Definition ex17_cfg : mp4_conf := mkMp4Conf 0x69736f6d 512 [0x69736f6d; 0x61766331] 0.   (* movie timescale 0 *)
+Definition ex17_video : track_conf :=
+  mkTrackConf "Video" 90000 [117; 110; 100] (AvcConf 1920 1080 [103; 66; 0; 30] [104; 206]).
+Definition ex17_audio : track_conf :=
+  mkTrackConf "Audio" 1 [255; 0] (AacConf 128000 "AacLowComplexity" "Freq48000" "Stereo").  (* non-ISO language *)
+Definition ex17_zero_ts : track_conf := mkTrackConf "Video" 0 [117; 110; 100] (HevcConf 640 480).
+Definition ex17_short_sps : track_conf := mkTrackConf "Video" 90000 [] (AvcConf 1920 1080 [103; 66; 0] []).
+Definition ex17_ops : list mux_op :=
+  [ OpWrite 1 (mkWSample 10 0 true [1]);                     (* no track at all *)
+    OpAddTrack ex17_zero_ts;                                 (* zero timescale *)
+    OpAddTrack ex17_short_sps;                               (* SPS shorter than its header *)
+    OpAddTrack ex17_video;
+    OpAddTrack ex17_audio;
+    OpWrite 0 (mkWSample 10 0 true [1]);                     (* track id 0 *)
+    OpWrite 3 (mkWSample 10 0 true [1]);                     (* unknown track id *)
+    OpWrite 4294967295 (mkWSample 10 0 true [1]);
+    OpWrite 1 (mkWSample 4294967295 0 true [1; 2; 3]);       (* maximal duration *)
+    OpWrite 1 (mkWSample 4294967295 (-2147483648) false []); (* again; empty sample; extreme offset *)
+    OpWrite 2 (mkWSample 0 0 false [9; 9]);                  (* zero duration *)
+    OpWrite 2 (mkWSample 4294967295 2147483647 true [8]) ].
+
+Example ex17_pre : mux_pre 0 ex17_cfg ex17_ops.
+Proof. constructor; [repeat constructor|vm_compute; reflexivity|vm_compute; reflexivity]. Qed.
+
+Example ex17_run :
+  forall m, match run_mux m 0 ex17_cfg ex17_ops with
+            | Ok (cls, f) => cls = [CData; CData; CData; COk; COk; CData; CData; CData; COk; COk; COk; COk]
+                             /\ lenN (mf_tracks f) = 2
+            | _ => False
+            end.
+Proof. intros []; vm_compute; split; reflexivity. Qed.
+
+(** the typing hypothesis is not idle: a "duration" that is not a u64, which no Rust caller can
+    pass, makes the model's [mdhd.duration += dur] overflow *)
+Example ex17_untyped_duration :
+  is_panic (run_mux Dbg 0 ex17_cfg [OpAddTrack ex17_video; OpWrite 1 (mkWSample U64 0 true [])]) = true.
+Proof. vm_compute. reflexivity. Qed.
